@@ -456,6 +456,19 @@ func (g *schedGen) submitFor(r *schedRun, m int, sameOpts bool) schedEv {
 	if g.rng.Intn(8) < g.routed {
 		kind = "submitr"
 	}
+	// adapter (+6) / projector (+12) variants of the model (GetRunner path only): the two other comparisons of needsReload.
+	// A loaded runner's bits are inherited through `opts` (reuse); sometimes flip one (reload), sometimes start with one.
+	if kind == "submit" && g.rng.Chance(1, 7) {
+		bit := 6 << g.rng.Intn(2)
+		if (opts/bit)%2 == 1 {
+			opts -= bit
+		} else {
+			opts += bit
+		}
+	}
+	if kind == "submitr" {
+		opts %= 6
+	}
 	return schedEv{kind: kind, a: m, b: opts, sess: g.sess()}
 }
 
@@ -1122,8 +1135,15 @@ func schedCorpus(t *testing.T, testName string, corpus []struct{ name, script st
 	if _, err := schedModels(dir, true); err != nil {
 		t.Fatal(err)
 	}
+	// own output directory: TestVerifSched (same VERIF_OUT, runs later) truncates ops/impl/l2/stats
+	sub := filepath.Join(zzverif.OutDir(), testName)
+	if err := os.MkdirAll(sub, 0o755); err != nil {
+		t.Fatal(err)
+	}
+	t.Setenv("VERIF_OUT", sub)
 	out := zzverif.NewOut()
 	defer out.Close()
+	out.Add("corpus_scripts_"+testName, len(corpus))
 	var jobs []schedJob
 	for _, w := range corpus {
 		jobs = append(jobs, schedJob{script: w.script})
